@@ -22,6 +22,34 @@ ExpectedNew(total, fpos) == IF fpos < 0 THEN total ELSE fpos
 Rec == ndJsonDeserialize(IOEnv.TRACE)
 Prop == IOEnv.PROP
 
+(***************************************************************************)
+(* DRIFT (reported, never gating): the implementation-shaped decoder       *)
+(* machine, with the real constants, is run on the same input and its      *)
+(* predictions - outcome, value, bytes consumed, deepest nesting, total    *)
+(* announced - are compared EXACTLY with what the real decoder did.  A     *)
+(* difference that is still inside the requirement is not a violation of   *)
+(* any property; it says the model no longer follows the code.             *)
+(***************************************************************************)
+DM == INSTANCE Decoder WITH ChunkBytes <- 16384, CMax <- Huge, Variant <- "faithful"
+RECURSIVE RunM(_, _, _)
+RunM(cfg, mm, fuel) == IF mm.status # "run" \/ fuel = 0 THEN mm ELSE RunM(cfg, DM!Step(cfg, mm), fuel - 1)
+MachineOn(r) ==
+  LET cfg == [E |-> r.E, ty |-> r.ty, inp |-> r.inp, known |-> TRUE, dlim |-> -1, mlim |-> -1, counted |-> TRUE]
+  IN RunM(cfg, DM!InitM(cfg), 600)
+DriftKind(r, obs) ==
+  LET mm == MachineOn(r) IN
+  IF mm.status = "run" THEN "none"                       \* out of fuel: not compared
+  ELSE IF (mm.status = "ok") # (r.base.res = "ok") THEN "outcome"
+  ELSE IF mm.status # "ok" THEN "none"
+  ELSE IF mm.pos # r.base.n \/ mm.vs # <<r.base.v>> THEN "value"
+  ELSE IF mm.dmax # obs.dmax THEN "depth"
+  ELSE IF mm.used # ToNat(obs.U) THEN "announced"
+  ELSE IF mm.count # r.base.n THEN "count"
+  ELSE "none"
+DriftNote(r, obs) ==
+  (Prop = "C03" /\ Len(r.inp) <= 12) =>
+     LET d == DriftKind(r, obs) IN IF d = "none" THEN TRUE ELSE PrintT(<<"DRIFT", d, r.tn>>)
+
 VARIABLE l
 
 (***************************************************************************)
@@ -86,6 +114,7 @@ DecOK(r) ==
   IN
   \* ---- every property: the unlimited base run is the specification's decoder (C03)
   /\ Agrees(r.base, spec)
+  /\ DriftNote(r, m)
   /\ ~r.base.evo
   /\ m.pos = r.base.n
   /\ \A i \in 1..Len(r.runs) : r.runs[i].res # "panic"
